@@ -241,30 +241,40 @@ def _valtok(x):
         return repr(x)
 
 
-def oracle_obj(o, idx, top=True) -> str:
+def oracle_obj(o, idx, top=True, anon=None) -> str:
+    """an attached object that is a field is named by the field; an anonymous one is numbered in order of
+    first appearance, so that two fields sharing an anonymous object must share it after the round trip"""
+    anon = [] if anon is None else anon
+    label = ""
     if not top:
         for path, f in idx:
             if f.data is o:
                 return "@" + path
+        for i, a in enumerate(anon):
+            if a is o:
+                return f"&{i}"
+        anon.append(o)
+        label = f"&{len(anon) - 1}"
     kind, ndim, cols, rows = describe(o)
     oth = getattr(o, "other", None) if kind in ("position", "posvel") else None
     rp = getattr(o, "ref_pos", None) if kind in ("position_delta", "posvel_delta") else None
-    so = oracle_obj(oth, idx, False) if oth is not None else "-"
-    sr = oracle_obj(rp, idx, False) if rp is not None else "-"
-    return f"{{{kind};{ndim};{cols};{extras(o)};{rows_token(rows)}|o={so}|r={sr}}}"
+    so = oracle_obj(oth, idx, False, anon) if oth is not None else "-"
+    sr = oracle_obj(rp, idx, False, anon) if rp is not None else "-"
+    return f"{label}{{{kind};{ndim};{cols};{extras(o)};{rows_token(rows)}|o={so}|r={sr}}}"
 
 
-def oracle_fields(fields, idx, level=0) -> list:
+def oracle_fields(fields, idx, level=0, anon=None) -> list:
+    anon = [] if anon is None else anon
     out = []
     for name, f in fields.items():
         if int(f._write_level) < level:
             continue
         if f.fieldtype == "collection":
-            out.append(("C", name, int(f._write_level), oracle_fields(f.data._fields, idx, level)))
+            out.append(("C", name, int(f._write_level), oracle_fields(f.data._fields, idx, level, anon)))
         else:
             u = "-" if f._unit is None else "+".join(f._unit)
             out.append(("L", name, f.fieldtype, len(f.data), u, int(f._write_level), int(f.multiplier),
-                        oracle_obj(f.data, idx)))
+                        oracle_obj(f.data, idx, True, anon)))
     return out
 
 
